@@ -535,6 +535,7 @@ class SPyr:
         s.J, s.perm, s.lo, s.rev, s.root, s.fmap = J, perm, lo, rev, root or s, fmap
         if root is None:
             s.elems = {}
+            s.generic_index = None
 
     def length(s):
         return simp(I(s.J) - s.lo)
@@ -558,6 +559,9 @@ class SPyr:
             raise Unsupported('slice %r of the symbolic pyramid' % (k,))
         if is_conc(k) and k == 0 and s.lo == 0 and not s.rev:
             return s.apply_map(s.element('first'))
+        gi = getattr(s.root, 'generic_index', None)
+        if isz(k) and gi is not None and s.lo == 0 and not s.rev and simp(I(k) - I(gi)) == 0:
+            return s.apply_map(s.element('generic'))          # indexed by the loop variable of the level loop
         raise Unsupported('index %r into the symbolic pyramid' % (k,))
 
     def apply_map(s, v):
@@ -608,14 +612,16 @@ def g_dtcwt_inverse_symJ(o_dim=2, ri_dim=-1, mode='symmetric', canary=False):
             parts = zipped.parts if isinstance(zipped, SymZip) else [zipped]
             lists = [p for p in parts if isinstance(p, SPyr)]
             rngs = [p for p in parts if isinstance(p, prims.SymRange)]
-            if len(lists) != 1:
-                raise Unsupported('level loop over something else than the band-pass list')
-            L = lists[0]
+            if len(lists) > 1 or (not lists and len(rngs) != 1):
+                raise Unsupported('level loop over something else than the band-pass list or its index range')
+            L = lists[0] if lists else pyr
             tv, _ = loop_state(node, env, 'low', None)
             if tv is None:
                 raise Unsupported('synthesis loop without a carried tensor')
-            side['init'] = {'low': env[tv], 'list': (L.lo, L.rev, L.root is pyr), 'ranges': [(r.lo, r.hi, getattr(r, 'step', 1)) for r in rngs], 'ncalls': len(rc.calls)}
+            side['init'] = {'low': env[tv], 'list': (L.lo, L.rev, L.root is pyr) if lists else None,
+                            'ranges': [(r.lo, r.hi, getattr(r, 'step', 1)) for r in rngs], 'ncalls': len(rc.calls)}
             S = L.apply_map(L.element('generic'))
+            jvars = []
             ra, ca = fresh_int('ra'), fresh_int('ca')
             c.assume(z3.And(ra >= 1, ca >= 1))
             T0 = env[tv]
@@ -627,10 +633,19 @@ def g_dtcwt_inverse_symJ(o_dim=2, ri_dim=-1, mode='symmetric', canary=False):
             before = dict(env)
             vals = []
             for p in parts:
-                vals.append(S if isinstance(p, SPyr) else fresh_int('j'))
+                if isinstance(p, SPyr):
+                    vals.append(S)
+                else:
+                    jv = fresh_int('j')
+                    c.assume(z3.And(jv >= 1, jv < I(Jv)))
+                    jvars.append(jv)
+                    vals.append(jv)
+            if not lists:
+                pyr.generic_index = jvars[0]          # the body reads the level through band_pass_list[j]
             it_.assign(node.target, tuple(vals) if isinstance(zipped, SymZip) else vals[0], env)
             tnames = {q.id for q in __import__('ast').walk(node.target) if isinstance(q, __import__('ast').Name)}
             it_.run(node.body, env)
+            pyr.generic_index = None
             side['step'] = {'A': A, 'S': S, 'calls': rc.calls[n0:], 'low': env[tv],
                             'other': [k for k in env if k in before and env[k] is not before[k] and k != tv and k not in tnames and k not in ('r', 'c', 'r1', 'c1')]}
             rj, cj = fresh_int('rJ'), fresh_int('cJ')
@@ -670,11 +685,17 @@ def g_dtcwt_inverse_symJ(o_dim=2, ri_dim=-1, mode='symmetric', canary=False):
         ini, stp, ext = side['init'], side['step'], side['exit']
         # INIT
         obs.append(Ob(pid + '/INIT/low==given-lowpass', 'INV', 'proved' if ini['low'] is side['yl'] else 'refuted', 'structural', 0))
-        lo_, rev_, same_ = ini['list']
-        obs.append(Ob(pid + '/INIT/loop-visits-bandpass[1:]-reversed', 'INV', 'proved' if (lo_ == 1 and rev_ and same_) else 'refuted', 'structural', 0,
-                      {} if (lo_ == 1 and rev_ and same_) else {'slice_from': lo_, 'reversed': rev_, 'model': {}}))
+        if ini['list'] is not None:
+            lo_, rev_, same_ = ini['list']
+            obs.append(Ob(pid + '/INIT/loop-visits-bandpass[1:]-reversed', 'INV', 'proved' if (lo_ == 1 and rev_ and same_) else 'refuted', 'structural', 0,
+                          {} if (lo_ == 1 and rev_ and same_) else {'slice_from': lo_, 'reversed': rev_, 'model': {}}))
+        else:
+            (a_, b_, st_) = ini['ranges'][0]
+            okr = st_ == -1
+            obs.append(Ob(pid + '/INIT/loop-index-descends', 'INV', 'proved' if okr else 'refuted', 'structural', 0, {} if okr else {'step': st_, 'model': {}}))
+            obs.append(solve.prove(pid + '/INIT/loop-index-runs-from-J-1-down-to-1', 'INV', c.pc, z3.And(I(a_) == Jv - 1, I(b_) == 0), MV + [Jv]))
         obs.append(Ob(pid + '/INIT/no-level-application-before-the-loop', 'INV', 'proved' if ini['ncalls'] == 0 else 'refuted', 'structural', 0))
-        for (a_, b_, st_) in ini['ranges']:
+        for (a_, b_, st_) in (ini['ranges'] if ini['list'] is not None else []):
             obs.append(solve.prove(pid + '/INIT/index-range-has-J-1-entries', 'INV', c.pc,
                                    (I(a_) - I(b_) == Jv - 1) if st_ == -1 else (I(b_) - I(a_) == Jv - 1), MV + [Jv]))
         # STEP against the reference step
